@@ -75,10 +75,14 @@ class RecListener(HostStateListener):
 
 class RecPolicy(LoadBalancingPolicy):
     """Round-robin-less policy: plan = live hosts in address order; records every notification."""
-    def __init__(self, log, ignored=(), oid=None):
+    def __init__(self, log, ignored=(), oid=None, ignore_while_down=()):
         self.log = log
         self.oid = oid or (lambda h: None)
         self.ignored = set(ignored)
+        # addresses whose distance depends on liveness, the way a remote-DC host's does under
+        # DCAwareRoundRobinPolicy(used_hosts_per_remote_dc >= 1): IGNORED while the last thing the policy was told about the host is on_down
+        self.ignore_while_down = set(ignore_while_down)
+        self._told_down = []       # hosts whose last status notification was on_down
         self._live = []
         self.populated = None
 
@@ -87,7 +91,10 @@ class RecPolicy(LoadBalancingPolicy):
         self.populated = sorted(addr_of(h) for h in hosts)
 
     def distance(self, host):
-        return HostDistance.IGNORED if addr_of(host) in self.ignored else HostDistance.LOCAL
+        a = addr_of(host)
+        if a in self.ignored or (a in self.ignore_while_down and host in self._told_down):
+            return HostDistance.IGNORED
+        return HostDistance.LOCAL
 
     def make_query_plan(self, working_keyspace=None, query=None):
         return [h for h in sorted(self._live, key=addr_of) if addr_of(h) not in self.ignored]
@@ -96,16 +103,22 @@ class RecPolicy(LoadBalancingPolicy):
         self.log.append(('up', addr_of(host), host.is_up, self.oid(host)))
         if host not in self._live:
             self._live.append(host)
+        if host in self._told_down:
+            self._told_down.remove(host)
 
     def on_down(self, host):
         self.log.append(('down', addr_of(host), host.is_up, self.oid(host)))
         if host in self._live:
             self._live.remove(host)
+        if host not in self._told_down:
+            self._told_down.append(host)
 
     def on_add(self, host):
         self.log.append(('add', addr_of(host), host.is_up, self.oid(host)))
         if host not in self._live:
             self._live.append(host)
+        if host in self._told_down:
+            self._told_down.remove(host)
 
     def on_remove(self, host):
         self.log.append(('remove', addr_of(host), host.is_up, self.oid(host)))
@@ -178,6 +191,7 @@ class HostWorld(object):
                   carries the control connection, it is never a target of events
         initial_gone  addresses not in the peers table at start (so they can be added later)
         ignored   addresses the policy reports IGNORED
+        ignore_while_down  addresses the policy reports IGNORED while it believes them down (LOCAL once told on_up/on_add)
         delay     reconnection delay (ConstantReconnectionPolicy)
         listener_before_connect  register the listener before connect() (default: after setup)
         sessions  number of sessions connected to the cluster (default 1); Cluster.sessions then iterates in
@@ -191,6 +205,7 @@ class HostWorld(object):
         self.server = VServer([HostSpec(a) for a in self.addrs])
         self.spec = dict((h.address, h) for h in self.server.hosts)
         # up | down | auth | once (= refuses exactly the next connection attempt, then is up again)
+        # | second (= accepts the next attempt, refuses exactly the one after it, then is up again)
         self.mode = dict((a, 'up') for a in self.addrs)
         self.gone = set(p.get('initial_gone', ()))                # not in the peers table
         self.server.peer_rows_override = self._peer_rows
@@ -202,16 +217,18 @@ class HostWorld(object):
             self.llog, self.plog = [], []
             self.oid = ObjIds()
             self.listener = RecListener(self.llog, self.oid)
-            self.lbp = RecPolicy(self.plog, ignored=p.get('ignored', ()), oid=self.oid)
+            self.lbp = RecPolicy(self.plog, ignored=p.get('ignored', ()), oid=self.oid,
+                                 ignore_while_down=p.get('ignore_while_down', ()))
             # The driver's default graph profiles wrap the default profile's policy, which would then be
             # notified once per profile by design; give them policies of their own so that the recording
             # policy hears exactly what ONE profile's policy hears.
             ign = p.get('ignored', ())
+            iwd = p.get('ignore_while_down', ())
             profiles = {
                 EXEC_PROFILE_DEFAULT: ExecutionProfile(load_balancing_policy=self.lbp),
-                EXEC_PROFILE_GRAPH_DEFAULT: GraphExecutionProfile(load_balancing_policy=RecPolicy([], ign)),
-                EXEC_PROFILE_GRAPH_SYSTEM_DEFAULT: GraphExecutionProfile(load_balancing_policy=RecPolicy([], ign)),
-                EXEC_PROFILE_GRAPH_ANALYTICS_DEFAULT: GraphAnalyticsExecutionProfile(load_balancing_policy=RecPolicy([], ign)),
+                EXEC_PROFILE_GRAPH_DEFAULT: GraphExecutionProfile(load_balancing_policy=RecPolicy([], ign, None, iwd)),
+                EXEC_PROFILE_GRAPH_SYSTEM_DEFAULT: GraphExecutionProfile(load_balancing_policy=RecPolicy([], ign, None, iwd)),
+                EXEC_PROFILE_GRAPH_ANALYTICS_DEFAULT: GraphAnalyticsExecutionProfile(load_balancing_policy=RecPolicy([], ign, None, iwd)),
             }
             self.cluster = self.w.make_cluster(
                 execution_profiles=profiles,
@@ -260,6 +277,7 @@ class HostWorld(object):
     def _on_connect(self, conn):
         a = conn.endpoint.address
         once = self.mode.get(a) == 'once'
+        second = self.mode.get(a) == 'second'
         if once:
             self.mode[a] = 'up'         # this attempt is the one that is refused (spec.up is still False)
         try:
@@ -267,6 +285,10 @@ class HostWorld(object):
         finally:
             if once:
                 self.spec[a].up = True
+            if second:
+                # this attempt was accepted; the next one is the one that is refused
+                self.mode[a] = 'once'
+                self.spec[a].up = False
 
     def set_mode(self, addr, mode):
         self.mode[addr] = mode
@@ -358,7 +380,7 @@ class HostWorld(object):
         fut = t[0]
         if h is not None and not h._cancelled and not fut.cancelled():
             mode = self.mode.get(addr_of(h.host))
-            self.stats['reconnect_' + {'up': 'ok', 'down': 'fail', 'once': 'fail', 'auth': 'auth'}[mode]] += 1
+            self.stats['reconnect_' + {'up': 'ok', 'down': 'fail', 'once': 'fail', 'second': 'ok', 'auth': 'auth'}[mode]] += 1
             if mode == 'auth':
                 self.auth_stopped.append(h)
         self.w.run_task(i)
